@@ -136,18 +136,37 @@ func (s c19source) rearmCall(f *flow.Func, call *ast.CallExpr) bool {
 		return true
 	}
 	// the same timer seen through a parameter of a helper (run split into setup + loop)
-	return o != nil && (c19isParamVar(o) || c19isParamVar(s.obj))
+	return o != nil && (c19isParamVar(f, o) || c19isParamVar(f, s.obj))
 }
 
-// c19isParamVar: the variable is a parameter of some function (declared in a signature, not by
-// an assignment) — it is then an alias of whatever its callers pass.
-func c19isParamVar(o types.Object) bool {
+// c19isParamVar: the variable is declared in the parameter list of some function or function
+// literal of the package — it is then an alias of whatever its callers pass.
+func c19isParamVar(f *flow.Func, o types.Object) bool {
 	v, ok := o.(*types.Var)
-	if !ok || v.IsField() || v.Parent() == nil {
+	if !ok || v.IsField() || f == nil || f.Pkg == nil {
 		return false
 	}
-	// parameters are declared in the function scope, whose extent is the body: they precede it
-	return v.Pos() < v.Parent().Pos()
+	found := false
+	for _, file := range f.Pkg.Syntax {
+		if found || !(file.Pos() <= v.Pos() && v.Pos() <= file.End()) {
+			continue
+		}
+		ast.Inspect(file, func(n ast.Node) bool {
+			ft, ok := n.(*ast.FuncType)
+			if !ok || ft.Params == nil || found {
+				return !found
+			}
+			for _, fld := range ft.Params.List {
+				for _, nm := range fld.Names {
+					if f.Info.Defs[nm] == o {
+						found = true
+					}
+				}
+			}
+			return true
+		})
+	}
+	return found
 }
 
 // rearmNode: the statement re-arms the source (v = time.After(d) on the same variable).
